@@ -481,7 +481,7 @@ impl Hook for Driver {
         g.threads[me].steps += 1;
         if ev.kind == "next_iter" {
             g.threads[me].spin += 1;
-        } else if !matches!(ev.kind, "cur_load" | "fr_cur_load" | "fr_cur_ret" | "fr_cur_flag" | "fr_flag_load" | "dep_next_full" | "fin_check" | "ws_check1" | "ws_check2" | "ws_wake") {
+        } else if !matches!(ev.kind, "atomic" | "cur_load" | "fr_cur_load" | "fr_cur_ret" | "fr_cur_flag" | "fr_flag_load" | "dep_next_full" | "fin_check" | "ws_check1" | "ws_check2" | "ws_wake") {
             g.threads[me].spin = 0;
             // somebody made real progress: spinners may have work again
             for t in g.threads.iter_mut() {
